@@ -29,4 +29,7 @@ Ordinal(lab, k) == Cardinality({j \in 1..k : lab[j][1] = lab[k][1]})
 Sequential(lab, start) == [k \in 1..Len(lab) |-> <<lab[k][1], start + Ordinal(lab, k) - 1, " ">>]
 (* twins: residues p and p+1 (same chain) get the number of residue p, the second one insertion code "A" *)
 MakeTwins(lab, p) == [k \in 1..Len(lab) |-> IF k = p + 1 THEN <<lab[p][1], lab[p][2], "A">> ELSE lab[k]]
+(* a lone insertion code: residue p keeps its (unique) number and gets insertion code "A" - renumbering in file order
+   takes this labelling back to one without codes *)
+AddCode(lab, p) == [k \in 1..Len(lab) |-> IF k = p THEN <<lab[p][1], lab[p][2], "A">> ELSE lab[k]]
 =============================================================================
